@@ -226,7 +226,9 @@ theorem insertTransaction_bound (s : Utxo) (victims : List Nat) (id : Nat) (tx :
 
 /-! ### B. indexed transaction cache -/
 
-def IdxInv (db : IdxDb) (s : Idx) : Prop := ∀ h v, s.txns.lookup h = some v → db.lookup h = some v
+/-- every cached entry is what the index says; with `MemoryFirst` the cache holds nothing -/
+def IdxInv (db : IdxDb) (s : Idx) : Prop :=
+  (∀ h v, s.txns.lookup h = some v → db.lookup h = some v) ∧ (s.memoryFirst = true → s.txns = [])
 
 /-! ### C. decoded block cache -/
 
